@@ -237,8 +237,11 @@ def flow_mc(mode, quick, thorough):
     keys = ["NetSel", "MaxConnects", "MaxIter", "MaxLoops", "DataSeeds", "CheckFD"]
     q = dict(zip(keys, quick)); q["Mode"] = mode
     t = dict(zip(keys, thorough)); t["Mode"] = mode
-    return {"module": "MC_Flow", "consts": {"quick": q, "thorough": t}, "workers": 12, "coverage": False,
-            "timeout": {"quick": 600, "thorough": 7200}}
+    r = {"module": "MC_Flow", "consts": {"quick": q, "thorough": t}, "workers": 12, "coverage": False,
+         "timeout": {"quick": 600, "thorough": 7200}}
+    if mode in ("skip", "loop"):
+        r["require"] = {"cases_with_distinct_accumulation_outputs": 40}
+    return r
 
 FLOW_ASSUME = COMMON_ASSUMPTIONS + [
     "values data/den with a power-of-two denominator are exact in f32; other denominators (mean over 3 tensors) are compared within 1e-5",
@@ -255,10 +258,12 @@ PROPS["C16"] = {
                   "and that with additive accumulation the specification's reverse walk equals finite differences of the network function; each "
                   "behaviour is replayed: accept/reject per call, predict under all five accumulations, and every parameter gradient (additive) "
                   "compared exactly",
-    "level_note": "four base networks of depth 3-4 (dense, conv, deconv, max-pool), at most 2 (3) connect calls, weights in {-1,0,1}; a second "
+    "level_note": "four base networks of depth 3-4 (dense, conv, deconv, max-pool), at most 2 (3) connect calls, sparse identity-like integer weights (the run fails as vacuous unless the five accumulations give distinguishable outputs); a second "
                   "connection to an already-targeted layer must be rejected (keeping both is not representable in the code's data structure)",
     "rule": "one case = one Connect behaviour on a base network, evaluated per data seed under 5 accumulations; all distinct; non-trivial = at least one accepted connection",
-    "mc": [flow_mc("skip", ["{1, 2, 3, 4}", 2, 1, 1, "{1, 2}", "TRUE"], ["{1, 2, 3, 4}", 3, 1, 1, "{1, 2, 3}", "TRUE"])],
+    "mc": [flow_mc("skip", ["{1, 2, 3, 4}", 2, 1, 1, "{1, 2}", "FALSE"], ["{1, 2, 3, 4}", 3, 1, 1, "{1, 2, 3}", "FALSE"]),
+           # the gradient theorem (finite differences in TLC) on the dense and the dense/conv network (quick) / all (thorough)
+           flow_mc("skip", ["{1, 4}", 2, 1, 1, "{1}", "TRUE"], ["{1, 2, 3, 4}", 2, 1, 1, "{1, 2}", "TRUE"])],
     "assumptions": FLOW_ASSUME,
 }
 PROPS["C17"] = {
@@ -270,7 +275,7 @@ PROPS["C17"] = {
                   "deconv->max-pool), every iteration count up to the bound, input skips on/off, and checks in the model that overwrite "
                   "accumulation equals the plain network with the range repeated k+1 times; each case is replayed under all five accumulations "
                   "with exact comparison, and the overwrite loop is compared bitwise with a real unrolled network holding the same weights",
-    "level_note": "iterations <= 2 (3); weights in {-1,0,1}; mean over 3 tensors compared within 1e-5, everything else exactly",
+    "level_note": "iterations <= 2 (3); sparse identity-like integer weights (vacuity guard: the accumulations must be distinguishable); multiply only for one iteration; mean over 3 tensors compared within 1e-5, everything else exactly",
     "rule": "one case = one (network, range, iterations, input skips) evaluated under 5 accumulations; all distinct; non-trivial = all",
     "mc": [flow_mc("loop", ["{1, 2, 3, 4}", 1, 2, 1, "{1, 2}", "FALSE"], ["{1, 2, 3, 4}", 1, 3, 1, "{1, 2, 3}", "FALSE"])],
     "assumptions": FLOW_ASSUME,
@@ -284,7 +289,7 @@ PROPS["C11"] = {
                   "block alone, conv+deconv pair after a conv, two dense layers between dense layers) x loop counts x the four skip-flag "
                   "combinations x the five accumulations, checks that without skips the block equals the repeated layer list, and every case's "
                   "prediction is compared with the real network",
-    "level_note": "loops <= 3 (4); weights in {-1,0,1}; overwrite with several sources means the last source (what the statement admits)",
+    "level_note": "loops <= 3 (4); sparse identity-like integer weights; multiply for loops <= 2; overwrite with several sources means the last source (what the statement admits)",
     "rule": "one case = one (placement, loops, inskips, outskips, accumulation) per data seed; all distinct; non-trivial = all",
     "mc": [flow_mc("fb", ["{1, 2, 3, 4, 5}", 1, 1, 3, "{1, 2}", "FALSE"], ["{1, 2, 3, 4, 5}", 1, 1, 4, "{1, 2, 3}", "FALSE"])],
     "assumptions": FLOW_ASSUME,
@@ -305,8 +310,8 @@ PROPS["C18"] = {
     "rule": "one case = one (state, length) record, one shuffle, or one 64-bit seed; distinct_nontrivial counts distinct ratio-one states plus "
             "distinct state residues mod 1000 plus shuffles and seeds",
     "mc": [{"module": "MC_C18",
-            "consts": {"quick": {"Band": 64, "GridStep": 16777216, "MaxLen": 16, "ShuffleLen": "{1, 2, 5, 8}"},
-                       "thorough": {"Band": 4096, "GridStep": 262144, "MaxLen": 64, "ShuffleLen": "{1, 2, 3, 5, 8, 13, 64}"}},
+            "consts": {"quick": {"Band": 64, "GridStep": 16777216, "MaxLen": 16, "ShuffleLen": "{0, 1, 2, 5, 8}"},
+                       "thorough": {"Band": 4096, "GridStep": 262144, "MaxLen": 64, "ShuffleLen": "{0, 1, 2, 3, 5, 8, 13, 64}"}},
             "workers": 8, "timeout": {"quick": 600, "thorough": 7200}}],
     "record": [{"group": "randomsweep"}],
     "assumptions": COMMON_ASSUMPTIONS + ["harness built with overflow-checks = true (as debug builds are): an arithmetic overflow is a panic"],
